@@ -66,6 +66,10 @@ Guest(i, f, x, st0, d, ch) ==
                         IF x >= 1000000 THEN [r |-> Fail("overflow", 0), st |-> st]
                         ELSE IF x = 0 THEN Leave(f, [r |-> Ok(0), st |-> st])
                         ELSE LET in == Guest(i, f, x - 1, st, d, me) IN Leave(f, [r |-> Ok(in.r.v + 1), st |-> in.st])
+    [] f = "recmix"  -> \* recmix(x), x = 2 * depth + flag: at the bottom trap (flag 1) or return 0; one function for deep failures and successes
+                        IF x < 2 THEN Leave(f, [r |-> IF x = 1 THEN Fail("trap", 0) ELSE Ok(0), st |-> st])
+                        ELSE LET in == Guest(i, f, x - 2, st, d, me) IN
+                             Leave(f, [r |-> IF IsOk(in.r) THEN Ok(in.r.v + 1) ELSE in.r, st |-> in.st])
     [] f = "recinf"  -> [r |-> Fail("overflow", 0), st |-> st]           \* depth and events are not compared for this outcome
     [] f = "callpeer" -> \* M.callpeer(x) = A.peer(x) + 100
                         LET in == Guest("A", "peer", x, st, d, me) IN
